@@ -266,6 +266,7 @@ type Exec struct {
 	Merged       int
 	forkSites    map[string]int
 	bootstrap    bool
+	shaState     map[*value][]value
 }
 
 func (ex *Exec) noteAbort(why string) {
@@ -934,6 +935,9 @@ func (i *interpreter) indexRead(base []value, idx sym) value {
 			return base[i.concInt(idx)]
 		}
 	}
+	if w := idx.t.W; w < 63 && n > 1<<w {
+		n = 1 << w // higher elements are unreachable for this index type
+	}
 	r := ex.term(base[n-1])
 	for j := n - 2; j >= 0; j-- {
 		r = c.Ite(c.Eq(idx.t, c.Const(idx.t.W, uint64(j))), ex.term(base[j]), r)
@@ -953,6 +957,9 @@ func (i *interpreter) indexWrite(base []value, idx sym, v value) {
 		return
 	}
 	tv := ex.term(v)
+	if w := idx.t.W; w < 63 && n > 1<<w {
+		n = 1 << w
+	}
 	for j := 0; j < n; j++ {
 		if ke, ok := kindOfValue(base[j]); !ok || ke != k {
 			panic(fmt.Sprintf("indexWrite: element %d has kind %T, storing %T", j, base[j], v))
@@ -966,10 +973,18 @@ func (i *interpreter) boundsCheck(idx sym, n int) {
 	ex := i.ex
 	c := ex.ctx
 	var inb *smt.Term
-	if kindSigned(idx.k) {
-		inb = c.And(c.Cmp(smt.OSle, c.Const(idx.t.W, 0), idx.t), c.Cmp(smt.OSlt, idx.t, c.Const(idx.t.W, uint64(n))))
-	} else {
-		inb = c.Cmp(smt.OUlt, idx.t, c.Const(idx.t.W, uint64(n)))
+	w := idx.t.W
+	switch {
+	case kindSigned(idx.k):
+		if w < 64 && uint64(n) >= uint64(1)<<(w-1) {
+			inb = c.Cmp(smt.OSle, c.Const(w, 0), idx.t) // every non-negative value is in range
+		} else {
+			inb = c.And(c.Cmp(smt.OSle, c.Const(w, 0), idx.t), c.Cmp(smt.OSlt, idx.t, c.Const(w, uint64(n))))
+		}
+	case w < 64 && uint64(n) >= uint64(1)<<w:
+		inb = c.True // the index type cannot exceed the length
+	default:
+		inb = c.Cmp(smt.OUlt, idx.t, c.Const(w, uint64(n)))
 	}
 	if !ex.branch(inb) {
 		panic(runtimeError(fmt.Sprintf("index out of range [symbolic] with length %d", n)))
